@@ -247,6 +247,25 @@ def track_flip(chk):
                   sample="track_replay over an arbitrary operations map and visited set")
 
 
+def is_replaying_contract(chk):
+    """the gate's input: is_replaying() is exactly `status is REPLAY` and leaves the state unchanged"""
+    eng = Engine()
+    P = eng.program
+    q = "state.ExecutionState.is_replaying"
+    chk.function(q)
+    rs_cls = P.cls("state.ReplayStatus")
+    R = enum_sort(rs_cls)[1]
+    st = St()
+    status0 = fresh("enum", "replay_status", rs_cls)
+    self_ = st.alloc(P.cls("state.ExecutionState"), {"_replay_status_lock": st.alloc("opaque:Lock", {}), "_replay_status": status0})
+    for k, v, s in eng.run(P.func(q), [self_], st=st):
+        chk.paths += 1
+        got = z3.BoolVal(v) if isinstance(v, bool) else (zbool(v) if k == "val" and v is not None else F)
+        now = s.get(self_)["_replay_status"]
+        chk.prove("C17.state.is_replaying", s.pc, z3.And(z3.BoolVal(k == "val"), got == (status0.t == R["REPLAY"]), now.t == status0.t),
+                  desc="is_replaying() returns True exactly when the replay status is REPLAY and does not change it (this is the value the logger gate reads)")
+
+
 def run(chk):
     chk.assume("U: sequential program; operations inside a completed context short-circuit (C01) and are therefore not visited")
     chk.assume("B3': a non-empty NextMarker in the invocation payload means the remaining pages hold at least one more record")
@@ -257,6 +276,7 @@ def run(chk):
     misc_contracts.logger_methods(chk, "C17")
     under_completed_contract(chk)
     track_flip(chk)
+    is_replaying_contract(chk)
     CC.operation_methods(chk, "C17", want=("C17",))
     X.item_in_child_context(chk, "C17")
     X.replay_items(chk, "C17")
